@@ -373,3 +373,27 @@ def superpose(ctx, case):
         raise
     ctx.ensure("no-exception", not out.raised)
     ctx.ensure("inv_traj:cache-clause", cache_ok(t))
+
+
+def _join_mixed_list(ctx, case):
+    """join with a LIST of others: cell presence must agree for EVERY element (self, other_k); any mixture is refused"""
+    self_cell, others = case
+    install(ctx)
+    t0, mod = TM.make_traj(ctx, 2, 5, cell=self_cell, name="t0")
+    lst = [TM.make_traj(ctx, 2, 5, cell=c, name=f"o{k}")[0] for k, c in enumerate(others)]
+    for t in [t0] + lst:
+        t.fields["_topology"] = TopWithSubset(5, None)
+    out = ctx.call_method(t0, "join", lst, check_topology=False)
+    mixed = any(c != self_cell for c in others)
+    if mixed:
+        ctx.ensure("mixing-cell-and-no-cell-is-refused(ValueError)", out.raised and out.exc.name == "ValueError")
+    else:
+        ctx.ensure("homogeneous-list-is-joined", not out.raised)
+        if not out.raised:
+            r = out.value
+            have = r.fields["_unitcell_lengths"] is not None and r.fields["_unitcell_angles"] is not None
+            ctx.ensure("complete-cell-exactly-when-inputs-had-one", have == self_cell)
+
+
+_LIST_CASES = [(s, o) for s in (True, False) for o in ((True, True), (True, False), (False, True), (False, False))]
+contract("C03", "mdtraj/core/trajectory.py", "Trajectory.join(list)", cases=_LIST_CASES, replay="ops")(_join_mixed_list)
